@@ -544,9 +544,11 @@ impl ArrayImpl {
                 })?),
                 Type::Float64 => Self::Float64(a.clone()),
                 Type::String => Self::new_string(StringArray::from_iter_display(a.iter())),
-                Type::Decimal(_, _) => Self::new_decimal(unary_op(a.as_ref(), |&f| {
-                    Decimal::from_f64_retain(f.0).unwrap()
-                })),
+                Type::Decimal(_, _) => Self::new_decimal(try_unary_op(a.as_ref(), |&f| {
+                    Decimal::from_f64_retain(f.0).ok_or_else(|| {
+                        ConvertError::Overflow(DataValue::Float64(f), data_type.clone())
+                    })
+                })?),
                 Type::Null
                 | Type::Date
                 | Type::Timestamp
